@@ -875,7 +875,7 @@ where
         &self,
         kh: KeyHash<K>,
         entry: TrioArc<ValueEntry<K, V>>,
-        old_weight: u32,
+        _old_weight: u32,
         new_weight: u32,
         deqs: &mut Deques<K>,
         freq: &FrequencySketch,
@@ -887,8 +887,14 @@ where
 
         if entry.is_admitted() {
             // The entry has been already admitted, so treat this as an update.
-            counters.saturating_sub(0, old_weight);
-            counters.saturating_add(0, new_weight);
+            // Replace what has been accounted for the entry by its current weight.
+            // The weights recorded in the op are not used: ops of concurrent inserts
+            // can be queued in a different order than the map was updated, and the
+            // entry may have been admitted by a later op than this one.
+            let current_weight = entry.policy_weight();
+            counters.saturating_sub(0, entry.accounted_weight());
+            counters.saturating_add(0, current_weight);
+            entry.set_accounted_weight(current_weight);
             deqs.move_to_back_ao(&entry);
             deqs.move_to_back_wo(&entry);
             return;
@@ -1065,6 +1071,7 @@ where
     ) {
         let key = Arc::clone(&kh.key);
         counters.saturating_add(1, policy_weight);
+        entry.set_accounted_weight(policy_weight);
         deqs.push_back_ao(
             CacheRegion::MainProbation,
             KeyHashDate::new(kh, entry.entry_info()),
@@ -1083,7 +1090,8 @@ where
     ) {
         if entry.is_admitted() {
             entry.set_admitted(false);
-            counters.saturating_sub(1, entry.policy_weight());
+            counters.saturating_sub(1, entry.accounted_weight());
+            entry.set_accounted_weight(0);
             // The following two unlink_* functions will unset the deq nodes.
             deqs.unlink_ao(&entry);
             Deques::unlink_wo(&mut deqs.write_order, &entry);
@@ -1101,7 +1109,8 @@ where
     ) {
         if entry.is_admitted() {
             entry.set_admitted(false);
-            counters.saturating_sub(1, entry.policy_weight());
+            counters.saturating_sub(1, entry.accounted_weight());
+            entry.set_accounted_weight(0);
             // The following two unlink_* functions will unset the deq nodes.
             Deques::unlink_ao_from_deque(ao_deq_name, ao_deq, &entry);
             Deques::unlink_wo(wo_deq, &entry);
@@ -1317,7 +1326,7 @@ where
             });
 
             if let Some((_k, entry)) = maybe_entry {
-                let weight = entry.policy_weight();
+                let weight = entry.accounted_weight();
                 Self::handle_remove_with_deques(DEQ_NAME, deq, write_order_deq, entry, counters);
                 evicted = evicted.saturating_add(weight as u64);
             } else if !self.try_skip_updated_entry(&key, DEQ_NAME, deq, write_order_deq) {
